@@ -8,7 +8,8 @@ From LV Require Import Own.SpecProofs.
 Local Open Scope Z_scope.
 
 (* ---- dup: equal value, same class, for EVERY state (empty string = OStr None, empty container,
-        NULL placeholders = None items, unevaluated tokenizer = OTok _ _ None, ...) ---- *)
+        NULL placeholders = None items, unevaluated tokenizer = OTok _ _ None _, a tokenizer whose token
+        list is out of step with its other members, ...) ---- *)
 Theorem C05_dup_equal : forall pcre x y, copy pcre x = Ok y -> abs y = abs x.
 Proof. exact copy_abs. Qed.
 Print Assumptions C05_dup_equal.
@@ -45,6 +46,27 @@ Theorem C05_independent : forall pcre ft w h x w1 r,
     (avoids (next w) p -> exists y, lookup (next w) (held w2) = Some y /\ abs y = abs x /\ tag_of y = tag_of x).
 Proof. exact dup_independent. Qed.
 Print Assumptions C05_independent.
+
+(* a tokenizer's copy carries the ORIGINAL's members - source, separators, the three characters and
+   the token list as it is, whatever the caller made of it (changed a member after eval without
+   evaluating again, removed a token from the list spif_tok_get_tokens hands out, installed a list
+   with spif_tok_set_tokens): the list is copied, never recomputed *)
+Theorem C05_dup_tok_copies_members : forall pcre a b l ch y, copy pcre (OTok a b l ch) = Ok y ->
+  exists a' b' l', y = OTok a' b' l' ch /\ abs_opt a' = abs_opt a /\ abs_opt b' = abs_opt b /\ abs_opt l' = abs_opt l.
+Proof. exact dup_tok_members. Qed.
+Print Assumptions C05_dup_tok_copies_members.
+
+(* such states are reachable: a character setter stores the character and leaves the list alone *)
+Theorem C05_tok_setter_leaves_list : forall pcre ft w t which c w' r a b l ch,
+  get w t = Ok (OTok a b l ch) -> step pcre ft w (TokSetChar t which c) = Ok (w', r) ->
+  exists ch', lookup t (held w') = Some (OTok a b l ch') /\ ledger w' = ledger w.
+Proof. exact tok_set_char_keeps_list. Qed.
+Print Assumptions C05_tok_setter_leaves_list.
+
+(* with the default characters the scanner of the model is the quoting grammar of property C12 *)
+Theorem C05_tok_scanner_default : forall d s i q, smq default_chars d i q s = SplitModel.sm d i q s.
+Proof. exact smq_default. Qed.
+Print Assumptions C05_tok_scanner_default.
 
 (* the general frame fact behind it: an operation changes only the handles it writes *)
 Theorem C05_frame : forall pcre ft h w op w' r,
@@ -121,7 +143,7 @@ Definition pc (_ : option text) (_ : Z) : Z := 1.
 (* a list with NULL placeholders, a nested linked list, a key-only pair, an unevaluated tokenizer *)
 Definition ex_list : obj :=
   OCont IList Arr 7 true [None; Some (OStr None); Some (OCont IList LL 9 false [Some (OStr (Some [97]))]);
-                           Some (OPair (Some (OStr (Some [107]))) None); Some (OTok (Some (OStr (Some [97; 32; 98]))) None None)].
+                           Some (OPair (Some (OStr (Some [107]))) None); Some (OTok (Some (OStr (Some [97; 32; 98]))) None None default_chars)].
 Example ex_dup_defined : exists y, copy pc ex_list = Ok y /\ abs y = abs ex_list /\ footprint y = 13.
 Proof. eexists. split; [vm_compute; reflexivity|]. split; vm_compute; reflexivity. Qed.
 Example ex_dup_empty : copy pc (OStr None) = Ok (OStr None) /\ copy pc (OCont IVector DL 3 false []) = Ok (OCont IVector DL 3 false []).
@@ -133,6 +155,22 @@ Example ex_comp_pair_key : comp (OPair None None) (OPair (Some (OStr None)) None
 Proof. reflexivity. Qed.
 Example ex_has_ty : has_ty (TyArr (TyPair TyStr)) (OCont IMap Arr 0 true [Some (OPair (Some (OStr (Some [107]))) (Some (OStr None)))]) = true.
 Proof. reflexivity. Qed.
+(* a tokenizer evaluated with blanks, then given the separator ",": its list still has the one token
+   "a,b"; the copy has the same list (a fresh evaluation would give "a" and "b") *)
+Example ex_stale_tok :
+  exists w outs, run pc [] w0 [NewTok (Some [97; 44; 98]); TokEval 0; NewStr (Some [44]); TokSetSep 0 (Some 1%nat); Dup 0] = Ok (w, outs) /\
+    exists a b l ch a' b' l', lookup 0 (held w) = Some (OTok a b (Some l) ch) /\ lookup 2 (held w) = Some (OTok a' b' (Some l') ch) /\
+      abs l' = abs l /\ abs l = OCont IList DL 0 false [Some (OStr (Some [97; 44; 98]))] /\
+      tok_tokens ch [97; 44; 98] (Some [44]) = [Some (OStr (Some [97])); Some (OStr (Some [98]))].
+Proof. do 2 eexists. split; [vm_compute; reflexivity|]. do 7 eexists. repeat split. Qed.
+(* the same after the caller removed a token through get_tokens, installed an array list, changed a quote *)
+Example ex_edited_tok :
+  exists w outs, run pc [] w0 [NewTok (Some [97; 32; 98]); TokEval 0; TokListRemoveAt 0 0; TokSetChar 0 0 124;
+                              MemberAppend 0 0 [32; 99]; Dup 0; NewCont IList Arr; TokSetTokens 2 (Some 3%nat); Dup 2; Dump 4] = Ok (w, outs) /\
+    lookup 0 (held w) = Some (OTok (Some (OStr (Some [97; 32; 98; 32; 99]))) None (Some (OCont IList DL 0 false [Some (OStr (Some [98]))])) (124, 34, 92)) /\
+    lookup 4 (held w) = Some (OTok (Some (OStr (Some [97; 32; 98; 32; 99]))) None (Some (OCont IList Arr 3 true [])) (124, 34, 92)) /\
+    ledger w = 18.
+Proof. do 2 eexists. split; [vm_compute; reflexivity|]. repeat split. Qed.
 Example ex_program :
   exists w outs, run pc [] w0 [NewStr (Some [97]); Dup 0; Append 1 [98]; Del 1; Dump 0] = Ok (w, outs) /\
                  lookup 0 (held w) = Some (OStr (Some [97])) /\ avoids 0 [Append 1 [98]; Del 1; Dump 0].
